@@ -46,7 +46,7 @@ def cases(tier, seed):
             qs.append({"s": s, "colidx": [i + 1 for i in idx], "colnames": [allcols[i] for i in idx], "single": single,
                        "explicit": rng.random() < 0.3})
         yield "sel.table", {"table": table, "mode": mode, "px": px, "w": w, "which": which, "rows": rows, "allcols": allcols, "qs": qs,
-                            "encoding": "enum" if h % 4 else "int"}
+                            "encoding": "enum" if h % 4 else "int", **({"at": ["/resolutions/5", "/a/b"][h % 2]} if h % 5 == 2 else {})}
     # (2) annotation
     for h in range(450 if tier == "quick" else 8000):
         table = tables[h % len(tables)]
@@ -85,7 +85,8 @@ def cases(tier, seed):
                 b = a + 1
         yield "sel.annotate", {"table": table, "mode": mode, "px": px, "w": w, "pixels": pixels, "bins_form": form, "part": [a, b],
                                "binattrs": binattrs, "encoding": "enum" if h % 3 else "int",
-                               "id_dtype": ["int64", "int32", "uint32"][h % 3], **({"rindex": rindex} if rindex else {})}
+                               "id_dtype": ["int64", "int32", "uint32"][h % 3], **({"rindex": rindex} if rindex else {}),
+                               **({"at": "/resolutions/5"} if h % 6 == 4 else {})}
 
 
 def run(tier, seed, only_case=None):
